@@ -64,7 +64,33 @@ type ShapeUnexpEmb struct {
 	W      uint8
 }
 
+// the same struct embedded at different positions (and together with other embedded structs) by several outer types
+type ShapeEmbFirst struct {
+	EmbInner
+	S string
+}
+type ShapeEmbLast struct {
+	A string
+	B uint8 `hash:"param:b"`
+	EmbInner
+}
+type EmbInner2 struct {
+	Q []byte `hash:"param:q"`
+}
+type ShapeEmbTwo struct {
+	HashPrefix string
+	EmbInner2
+	M string
+	EmbInner
+	Z string
+}
+type ShapeEmbDeep struct {
+	ShapeEmbFirst
+	T uint16 `hash:"param:t"`
+}
+
 var handShapes = []reflect.Type{
+	reflect.TypeOf(ShapeEmbFirst{}), reflect.TypeOf(ShapeEmbLast{}), reflect.TypeOf(ShapeEmbTwo{}), reflect.TypeOf(ShapeEmbDeep{}),
 	reflect.TypeOf(ShapeEmbVal{}), reflect.TypeOf(ShapeEmbPtr{}), reflect.TypeOf(ShapeShadow{}), reflect.TypeOf(ShapeText{}),
 	reflect.TypeOf(ShapePtrs{}), reflect.TypeOf(ShapeConflict{}), reflect.TypeOf(ShapeUnexpEmb{}),
 }
